@@ -30,7 +30,8 @@ from rules.order import ok_cut
 import findom
 
 TECHNIQUE = ("static analysis over rustc MIR: finite-domain concrete interpretation of the header codec, symbolic byte-container lengths "
-             "(forward abstract interpretation with linear expressions) for the trailer framing, ordering / provenance rules for packer and indexer")
+             "(forward abstract interpretation with linear expressions) for the trailer framing, interval analysis with guard refinement over the "
+             "storage-derived sizes of the pack reader (every overflow assertion they reach is discharged), ordering / provenance rules for packer and indexer")
 
 LEVEL = "other"
 EXHAUSTIVE = True
